@@ -291,6 +291,7 @@ func observeSubject(q any) KV {
 
 // makeInit builds the initial object of an init kind, or nil.
 func makeInit(s subject, ops []sop, kind string) any {
+	resetGlobals()
 	switch kind {
 	case "new":
 		return s.New()
